@@ -137,7 +137,7 @@ pub fn slice_session(data: &[u8], sh: bool, sched: &[Resp], is_async: bool, cap:
 pub fn message_session(data: &[u8], sh: bool, sched: &[Resp], is_async: bool, cfg: Option<&DltFilterConfig>) -> Vec<J> {
     let log = Rc::new(RefCell::new(vec![]));
     let script = Script { data: data.to_vec(), pos: 0, sched: sched.to_vec(), i: 0, log: log.clone() };
-    let processed: Option<ProcessedDltFilterConfig> = cfg.map(|c| c.into());
+    let processed: Option<ProcessedDltFilterConfig> = match slice::conv_opt(cfg) { Ok(p) => p, Err(()) => return vec![json!({"v": "panic"})] };
     let mut res = vec![];
     let r = catch_unwind(AssertUnwindSafe(|| {
         let mut out = vec![];
@@ -184,7 +184,7 @@ pub fn sched_of_json(j: &J) -> Vec<Resp> {
 /// C07 event: one blocking session (next_message_slice), plus read_message on the same schedule compared with parsing each delivered slice
 pub fn reader_event(data: &[u8], sh: bool, sched: &[Resp], is_async: bool, cap: Option<usize>, cfg: Option<&DltFilterConfig>) -> J {
     let (log, slices) = slice_session(data, sh, sched, is_async, cap);
-    let processed: Option<ProcessedDltFilterConfig> = cfg.map(|c| c.into());
+    let processed: Option<ProcessedDltFilterConfig> = match slice::conv_opt(cfg) { Ok(p) => p, Err(()) => return slice::convpanic(cfg) };
     // what parsing each delivered piece gives (class and message / payload length), ended like read_message ends
     let mut sp = vec![];
     let mut parse_ended = false;
@@ -267,6 +267,25 @@ pub fn hostile_stream(r: &mut Rng, sh: bool) -> Vec<u8> {
     }
     data
 }
+/// messages whose total size (with storage header) or declared length sits within 16 bytes of a power of two between 2^8 and 2^15:
+/// where a reader that grows or re-uses its buffers in steps would stumble
+pub fn pow2_stream(r: &mut Rng, sh: bool) -> Vec<u8> {
+    let mut data = vec![];
+    let k = 8 + r.below(8) as u32;
+    for _ in 0..1 + r.below(3) {
+        let target = (1usize << k) - 20 + r.below(40) as usize;      // the declared length
+        let extra = target.saturating_sub(4 + 10 + 4).max(1);
+        let m = dlt_core::dlt::Message {
+            storage_header: if sh { Some(dlt_core::dlt::StorageHeader { timestamp: dlt_core::dlt::DltTimeStamp { seconds: r.next() as u32, microseconds: r.next() as u32 }, ecu_id: "ECU".into() }) } else { None },
+            header: dlt_core::dlt::StandardHeader { version: 1, endianness: dlt_core::dlt::Endianness::Little, has_extended_header: true, message_counter: r.next() as u8, ecu_id: None, session_id: None, timestamp: None,
+                                                    payload_length: (4 + extra) as u16 },
+            extended_header: Some(dlt_core::dlt::ExtendedHeader { verbose: false, argument_count: 0, message_type: dlt_core::dlt::MessageType::Log(dlt_core::dlt::LogLevel::Info), application_id: "A".into(), context_id: "C".into() }),
+            payload: dlt_core::dlt::PayloadContent::NonVerbose(r.next() as u32, r.bytes(extra)),
+        };
+        data.extend(gen::ser(&m));
+    }
+    data
+}
 pub fn random_stream(r: &mut Rng, sh: bool) -> Vec<u8> {
     let mut data = vec![];
     for _ in 0..r.below(4) {
@@ -316,7 +335,7 @@ pub fn record(mode: &str, seed: u64, n: usize, out: &mut Out) {
         "blocking" | "async" => {
             for i in 0..n {
                 let sh = r.coin();
-                let data = if i % 40 == 13 { special_stream(&mut r, sh) } else if i % 8 == 5 { hostile_stream(&mut r, sh) } else { random_stream(&mut r, sh) };
+                let data = if i % 40 == 13 { special_stream(&mut r, sh) } else if i % 8 == 5 { hostile_stream(&mut r, sh) } else if i % 16 == 3 { pow2_stream(&mut r, sh) } else { random_stream(&mut r, sh) };
                 let sched = random_sched(&mut r);
                 let cfg = if i % 3 == 0 { Some(slice::random_filter(&mut r, None)) } else { None };
                 // the largest message any header position of this stream could declare: small capacities are only legitimate above it
@@ -361,7 +380,7 @@ pub fn record(mode: &str, seed: u64, n: usize, out: &mut Out) {
         "pair" => {
             for i in 0..n {
                 let sh = r.coin();
-                let data = if i % 40 == 13 { special_stream(&mut r, sh) } else if i % 8 == 5 { hostile_stream(&mut r, sh) } else { random_stream(&mut r, sh) };
+                let data = if i % 40 == 13 { special_stream(&mut r, sh) } else if i % 8 == 5 { hostile_stream(&mut r, sh) } else if i % 16 == 3 { pow2_stream(&mut r, sh) } else { random_stream(&mut r, sh) };
                 let sched = random_sched(&mut r);
                 out.calls += 4;
                 out.emit(pair_event(&data, sh, &sched), data.len() > 8);
